@@ -513,6 +513,8 @@ impl<C: ContainerValue> ContainerEnv<C> {
         // requires it. It's possible that incremental rebuilding will only be profitable when the
         // total number of ids to rebuild is small, in which case the overhead of parallelism may
         // not be worth it in the first place.
+        #[cfg(egglog_verif)]
+        crate::verif::count(crate::verif::Path::container_rebuild_incremental);
         let mut summary = ContainerRebuildSummary::default();
         let mut buf = TaggedRowBuffer::new(1);
         table.scan_project(
@@ -561,7 +563,11 @@ impl<C: ContainerValue> ContainerEnv<C> {
         rebuilder: &dyn Rebuilder,
         exec_state: &mut ExecutionState,
     ) -> ContainerRebuildSummary {
+        #[cfg(egglog_verif)]
+        crate::verif::count(crate::verif::Path::container_rebuild_nonincremental);
         if parallelize_inter_container_op(self.to_id.len()) {
+            #[cfg(egglog_verif)]
+            crate::verif::count(crate::verif::Path::container_rebuild_nonincremental_parallel);
             return self.apply_rebuild_nonincremental_parallel(rebuilder, exec_state);
         }
         let mut summary = ContainerRebuildSummary::default();
